@@ -16,6 +16,18 @@ Theorem C01_gen_set_level : forall dbg trc lvl, Decisions.set_level dbg trc lvl 
 Proof. exact Verif.Proofs.ModeP.gen_set_level. Qed.
 Print Assumptions C01_gen_set_level.
 
+(* tie for the one entry point with two exits: Entry.Println is translated whole (Gen/Routes.v; the internal routines
+   a short cut could call - printOut, logContext - are part of the fragment, so that using one is a DIFFERENT route,
+   not a fall-back).  For every argument list, with or without arguments, a string or any other first argument: the
+   call ends in s.log1 at AlwaysLevel - the routine whose gate, caller depth and termination the row of
+   Gen.entry_points describes - with the first argument as the message and the others handed on. *)
+Require Verif.Model.GoSem Verif.Model.TreeRef Verif.Model.RouteRef Verif.Gen.Routes Verif.Proofs.GenEntryRouteP.
+Theorem C01_gen_println_route : forall as_string f_sprint args,
+  Routes.println_route as_string f_sprint args
+  = RouteRef.RLog1 lv_always (RouteRef.println_msg as_string f_sprint args) (tl args).
+Proof. exact GenEntryRouteP.gen_println_route. Qed.
+Print Assumptions C01_gen_println_route.
+
 (* the admission rule of the statement, for every registry (treated-as table),
    debug mode, logger level and severity - all of Z, built-in or not *)
 Theorem C01_enabled_rule : forall m dbg L r, enabled_code m dbg L r = true <-> admits m dbg L r.
